@@ -214,6 +214,10 @@ def check(run, db, tier):
     run.group(wavefront_rules, run, db)
     from .c01 import fresh_rules
     run.group(fresh_rules, run, db, 'C03.grid')
+    # the coordinate grids a sampled field is located with: built from fftrange*dx over (row, col), unpacked in the order they are returned (shared with C04)
+    from . import c04
+    from .c02 import Sub
+    run.group(c04.check, Sub(run, lambda r: 'C03.grid'), db, tier)
     run.require_instances('C03.formula', 4)
     run.require_instances('C03.kernel', 100)
     run.require_instances('C03.units', 4)
